@@ -7,6 +7,7 @@ rc=0
 for id in $ids; do
   ./check $id --tier $tier 2>&1 | grep -E "^(VIOLATION|KNOWN-FINDING|INFRA|C[0-9]+ tier)" | cut -c1-220
   [ ${PIPESTATUS[0]} -ne 0 ] && rc=1
+  [ -n "${VERIF_REPO:-}" ] && [ "$VERIF_REPO" != "/repo" ] && continue
   python3-vt -c "
 import json,jsonschema,sys
 jsonschema.validate(json.load(open('evidence/$id.json')),json.load(open('/root/.vp/EVIDENCE.schema.json')))" || { echo "EVIDENCE INVALID $id"; rc=1; }
